@@ -14,7 +14,10 @@ def sh(cmd, cwd, timeout=1800):
 readme = open(os.path.join(md, 'README.md')).read()
 demos = [f for f in os.listdir(md) if f.endswith('_test.go')]
 dest = {}
+for d, p in re.findall(r'DEMO:\s*`?([\w.-]+_test\.go)`?\s*->\s*`?([\w./-]+_test\.go)`?', readme):
+    if d in demos: dest[d] = p
 for d in demos:
+    if d in dest: continue
     m = re.findall(r'[`\s(]([\w./-]*/' + re.escape(d) + r')', readme)
     m = [p for p in m if not p.startswith('/') and 'mutants' not in p]
     if not m:
